@@ -328,5 +328,8 @@ func init() {
 	register(&Family{Name: "c05-random", Count: func(tier string) int { return map[string]int{"quick": 3000, "thorough": 100000}[tier] },
 		Gen: genC05Random, New: newSc, Run: runC05, Policy: pol})
 	register(&Family{Name: "c05-lengths", Enumerated: true, Count: func(string) int { return c05BigLen - 6 + 1 }, Gen: genC05Lengths, New: newSc, Run: runC05, Policy: pol})
-	plans["C05"] = []string{"c05-cuts", "c05-bigcuts", "c05-random", "c05-lengths"}
+	// c12-boundary under C05: a connection that ends inside a record (every
+	// position of the enumerated grid, all four methods): the piece that did
+	// arrive must never reach the session as if it were a message
+	plans["C05"] = []string{"c05-cuts", "c05-bigcuts", "c05-random", "c05-lengths", "c12-boundary"}
 }
